@@ -8,7 +8,7 @@ From Coq Require Import String List NArith Bool Permutation Sorted.
 From J5V.lib Require Import Outcome Strcase.
 From J5V.gen Require MapRangeGen SetExtGen StateGen.
 From J5V.model Require Import Desc J5sAst J5sWalk J5sConvert CmpbOrder CmpbInstance.
-From J5V.proofs Require Import CmpbOrderProofs CmpbComposeProofs CmpbStateProofs.
+From J5V.proofs Require Import CmpbOrderProofs CmpbComposeProofs CmpbStateProofs CmpbLinkTotalProofs.
 From J5V.model Require ProtoPrintFile.
 From J5V.proofs Require CmpbPrintBridgeProofs.
 Import ListNotations.
@@ -127,6 +127,45 @@ Theorem C14_link_total :
       exists c' ls, link_all lookup deps_of link1 fuel c names = Some (c', ls).
 Proof. exact @link_all_total. Qed.
 Print Assumptions C14_link_total.
+
+(* loading a package leaves the set of loaded packages closed under direct dependencies (it loads them first), grows
+   the cache and contains the package: the invariant that lets the link phase, which looks files up among the LOADED
+   packages only (findFileByPath), find every import *)
+Theorem C14_loaded_packages_closed :
+  forall (F D : Type) (convert : env -> @srcfile F -> bytes -> D) lf rd,
+    (forall n l, Permutation (lf n l) l) -> (forall n l, Permutation (rd n l) l) ->
+  forall b fuel c n c' p, cache_closed b c -> load convert lf rd fuel b c n = Some (c', p) ->
+    cache_closed b c' /\ grows c c' /\ present c' n.
+Proof. exact @load_closed. Qed.
+Print Assumptions C14_loaded_packages_closed.
+
+(* CompilePackage as a whole, TOTAL form: load totality composed with link totality through that invariant.  On a valid
+   bundle whose package dependencies are present and acyclic (rank), whose produced files are stored under the package
+   packageForFile answers (owner_ok) and import only produced files of their own package or of a direct dependency, without
+   an import cycle (imports_wf, frank): there is ONE list of linked files that EVERY call returns - any listing / map
+   orders, any fuels above the ranks, after any history of earlier CompilePackage calls on the PackageSet *)
+Theorem C14_compile_package_linked_total :
+  forall (F D L : Type) (convert : env -> @srcfile F -> bytes -> D) (owner : bytes -> bytes)
+         (deps_of : D -> list bytes) (link1 : D -> list L -> L) b rank frank,
+    valid b -> well_founded_deps b rank -> owner_ok convert owner b -> imports_wf convert owner deps_of b frank ->
+    forall n, find_pkg n b <> None ->
+    exists out, forall lf rd rf,
+      (forall n l, Permutation (lf n l) l) -> (forall n l, Permutation (rd n l) l) -> (forall n l, Permutation (rf n l) l) ->
+      forall fuel lfuel earlier, (rank n < fuel)%nat ->
+        (forall o, In o (map fst (p_files (spec_pkg convert b n))) -> (frank o < lfuel)%nat) ->
+        let h := compile_link_seq convert lf rd rf owner deps_of link1 fuel lfuel b [] [] earlier in
+        exists pc' lc', compile_and_link convert lf rd rf owner deps_of link1 fuel lfuel b (fst h) (snd h) n = Some (pc', lc', out).
+Proof. exact @compile_package_linked_total. Qed.
+Print Assumptions C14_compile_package_linked_total.
+
+(* its hypotheses are satisfiable by a bundle with a cross-package and a same-package import, and the call computes *)
+Example C14_example_linked_total :
+  valid ex_bundle /\ well_founded_deps ex_bundle ex_rank /\ owner_ok ex_conv ex_owner ex_bundle
+  /\ imports_wf ex_conv ex_owner (fun d : list bytes => d) ex_bundle ex_frank
+  /\ exists pc lc, compile_and_link ex_conv (fun _ l => rev l) (fun _ l => rev l) (fun _ l => rev l) ex_owner (fun d => d) ex_link1
+                                     5%nat 5%nat ex_bundle [] [] [103] = Some (pc, lc, [([99], 4)]).
+Proof. exact (conj ex_valid (conj ex_wf (conj ex_owner_ok (conj ex_imports_wf ex_total_value)))). Qed.
+Print Assumptions C14_example_linked_total.
 
 (* ---- the conversion stage is not an opaque parameter: the skeleton instantiated with cmpa's Gallina model of
    ConvertJ5File (model/J5sConvert.v cv_file over the AST of model/J5sAst.v, lib/Strcase.v for the names), which
